@@ -115,10 +115,57 @@ Empty == [a |-> <<>>, w |-> <<>>]    \* <<>> is the function with empty domain
 NoTriple == [s |-> 0, p |-> 0, o |-> Null]
 
 Specific(c) == c.s.c # 0 /\ c.p.c # 0 /\ c.o.ck # ""
+
+\* ---------------------------------------------------------------------------------------------
+\* FILTER clauses (docs/bql.md "FILTER clause"; the filter functions of property C09 reached through BQL).
+\* fs = sequence of [op |-> "latest"|"isTemporal"|"isImmutable", b |-> binding].  A filter applies to every
+\* clause that has its binding in the predicate position (binding or AS alias) or in the object position; it
+\* is handed to the driver lookup of that clause: of the lookup's candidates (the triples of ONE graph whose
+\* fixed components equal the constants of the clause) left by the time window, the filter keeps
+\*   isTemporal / isImmutable: the triples whose predicate (or predicate-valued object) is of that kind,
+\*   latest: per predicate identifier, the temporal ones with the greatest anchor (ties kept);
+\* an object that is not a predicate is dropped by every filter on the object field.  The rest of the clause
+\* (identifier, extractions, repeated bindings) is matched on what the lookup returned.
+ClauseField(c, f) == IF f.b \in ({c.p.b, c.p.as} \ {""}) THEN "P"
+                     ELSE IF f.b \in ({c.o.b, c.o.as} \ {""}) THEN "O" ELSE ""
+ClauseFilters(c, fs) == {i \in DOMAIN fs : ClauseField(c, fs[i]) # ""}
+ConstMatch(c, t) == /\ (c.s.c = 0 \/ t.s = c.s.c) /\ (c.p.c = 0 \/ t.p = c.p.c)
+                    /\ (c.o.ck = "" \/ t.o = Cell(c.o.ck, c.o.cv))
+FPred(t, fld) == IF fld = "P" THEN t.p ELSE IF t.o.k = "P" THEN t.o.v ELSE 0
+KeepsF(op, fld, C, d) ==
+    LET p == FPred(d[2], fld) IN
+    /\ p # 0
+    /\ CASE op = "isTemporal"  -> IsTmp(p)
+         [] op = "isImmutable" -> ~IsTmp(p)
+         [] op = "latest"      -> /\ IsTmp(p)
+                                  /\ \A u \in C : LET pu == FPred(u[2], fld) IN
+                                        (pu # 0 /\ IsTmp(pu) /\ PRED[pu].id = PRED[p].id) => PRED[pu].n <= PRED[p].n
+FilteredData(c, fs, D, glo, ghi) ==
+    IF ClauseFilters(c, fs) = {} THEN D
+    ELSE LET f == fs[CHOOSE i \in ClauseFilters(c, fs) : TRUE]
+             fld == ClauseField(c, f)
+             cand(g) == {d \in D : d[1] = g /\ ConstMatch(c, d[2]) /\ GlobalOK(d[2], glo, ghi)}
+         IN  UNION {{d \in cand(g) : KeepsF(f.op, fld, cand(g), d)} : g \in {d[1] : d \in D}}
+\* What the documentation does not fix (left open, never judged): several filters meeting in one clause or one
+\* binding in both filterable positions of a clause (rejected or resolved arbitrarily), a filter binding in a
+\* position no filter applies to, a filtered clause that is fully specified (no lookup is made) or carries its own
+\* time bounds (they narrow the window of the lookup), and `latest` on a clause that shares a binding with an
+\* earlier clause (the lookup is then specialised per row, so "the lookup's candidates" depend on the plan).
+FilterOpen(cs, fs) ==
+    \/ \E i \in DOMAIN cs : Cardinality(ClauseFilters(cs[i], fs)) > 1
+    \/ \E i \in DOMAIN cs, k \in DOMAIN fs :
+          LET c == cs[i]  b == fs[k].b IN
+          \/ (b \in {c.p.b, c.p.as} /\ b \in {c.o.b, c.o.as})
+          \/ b \in ({c.s.b, c.s.as, c.s.ty, c.s.id, c.p.id, c.p.at, c.p.ab, c.o.ty, c.o.id, c.o.at, c.o.ab} \ {""})
+          \/ (ClauseField(c, fs[k]) # "" /\ (Specific(c) \/ c.p.bd \/ c.o.bd))
+          \/ (ClauseField(c, fs[k]) # "" /\ fs[k].op = "latest" /\
+                  \E j \in 1..(i - 1) : ClauseNames(cs[j]) \cap ClauseNames(c) # {})
+    \/ \E k \in DOMAIN fs : \A i \in DOMAIN cs : ClauseField(cs[i], fs[k]) = ""
 \* names introduced by the clauses before position i
 PrevNames(cs, i) == UNION {ClauseNames(cs[k]) : k \in 1..(i - 1)}
-Step(S, cs, i, D, glo, ghi, dv) ==
+Step(S, cs, i, D0, glo, ghi, dv, fs) ==
     LET c == cs[i]
+        D == FilteredData(c, fs, D0, glo, ghi)
         ext(x) == {[a |-> Merge(x.a, Assign(c, d[2])), w |-> Append(x.w, d)] :
                       d \in {d \in D : Matches(c, d[2], glo, ghi, dv) /\ Compatible(x.a, Assign(c, d[2]))}}
         nul(x) == [a |-> Merge(x.a, [b \in ClauseNames(c) |-> Null]), w |-> Append(x.w, <<0, NoTriple>>)]
@@ -132,14 +179,16 @@ Step(S, cs, i, D, glo, ghi, dv) ==
                     THEN (IF "rows-without-bindings-dropped" \in dv /\ DOMAIN x.a = {} /\ ClauseNames(c) # {} THEN {} ELSE {nul(x)})
                     ELSE ext(x) : x \in S}
 
-RECURSIVE Fold(_, _, _, _, _, _, _)
-Fold(S, cs, i, D, glo, ghi, dv) ==
-    IF i > Len(cs) THEN S ELSE Fold(Step(S, cs, i, D, glo, ghi, dv), cs, i + 1, D, glo, ghi, dv)
+RECURSIVE Fold(_, _, _, _, _, _, _, _)
+Fold(S, cs, i, D, glo, ghi, dv, fs) ==
+    IF i > Len(cs) THEN S ELSE Fold(Step(S, cs, i, D, glo, ghi, dv, fs), cs, i + 1, D, glo, ghi, dv, fs)
+\* the FILTER clauses of a query record (absent field = none)
+FiltersOf(q) == IF "filters" \in DOMAIN q THEN q.filters ELSE <<>>
 
 \* data = set of <<graph index, triple record [s, p, o]>>; q.graphs lists universe triple indices
 Data(graphs) == UNION {{<<g, TRI[graphs[g][i]]>> : i \in DOMAIN graphs[g]} : g \in DOMAIN graphs}
 
-SolutionsOver(D, q, dv) == Fold({Empty}, q.clauses, 1, D, q.glo, q.ghi, dv)
+SolutionsOver(D, q, dv) == Fold({Empty}, q.clauses, 1, D, q.glo, q.ghi, dv, FiltersOf(q))
 SolutionsDev(q, dv) == SolutionsOver(Data(q.graphs), q, dv)
 Solutions(q) == SolutionsDev(q, {})
 
@@ -165,7 +214,8 @@ Deviations == {"oid-alias-unchecked", "rows-without-bindings-dropped"}
 \* Patterns whose meaning the property leaves open: an OPTIONAL clause sharing a binding that only
 \* an earlier OPTIONAL clause introduced (NULL-vs-value compatibility is not defined).
 OpenQuery(q) ==
-    \E i, j \in DOMAIN q.clauses : i < j /\ q.clauses[i].opt /\ q.clauses[j].opt /\
+    \/ (FiltersOf(q) # <<>> /\ FilterOpen(q.clauses, FiltersOf(q)))
+    \/ \E i, j \in DOMAIN q.clauses : i < j /\ q.clauses[i].opt /\ q.clauses[j].opt /\
         \E b \in ClauseNames(q.clauses[i]) \cap ClauseNames(q.clauses[j]) :
             \A k \in 1..(i-1) : b \notin ClauseNames(q.clauses[k])
 
